@@ -60,7 +60,7 @@ impl Drop for El {
 }
 struct It { vals: [u64; 12], n: usize, pos: usize, hint: usize, upper: Option<usize> }
 /// the upper bound of the size hint is deliberately loose for some iterators (as for filter / flat_map): the vectors must not rely on it
-fn mk_it(v: &[u64], hint: usize) -> It { let mut a = [0u64; 12]; a[..v.len()].copy_from_slice(v); let upper = match (v.len() + hint) % 3 { 0 => None, 1 => Some(v.len().max(hint)), _ => Some(v.len().max(hint) + 9) }; It { vals: a, n: v.len(), pos: 0, hint, upper } }
+fn mk_it(v: &[u64], hint: usize) -> It { let mut a = [0u64; 12]; a[..v.len()].copy_from_slice(v); let upper = match (v.len() + hint) % 4 { 0 => None, 1 => Some(v.len().max(hint)), 2 => Some(v.len().max(hint) + 9), _ => Some(hint) /* claims to be exact, may yield more: safe code can lie */ }; It { vals: a, n: v.len(), pos: 0, hint, upper } }
 impl Iterator for It {
     type Item = El;
     fn next(&mut self) -> Option<El> {
@@ -568,12 +568,139 @@ fn extra_types(sum: &mut Summary) {
     battery!(|i: u8| Big(i), 0, "align(64)");
     battery!(|i: u8| Box::new(i as u64), 0, "Box<u64>");
     battery!(|i: u8| vec![i; (i % 5) as usize], 0, "Vec<u8>");
+    // zero-sized elements WITH a destructor: every one created is dropped exactly once, also through drains dropped early
+    {
+        static ZNEW: AtomicUsize = AtomicUsize::new(0);
+        static ZDROP: AtomicUsize = AtomicUsize::new(0);
+        struct DropZst;
+        impl DropZst { fn new() -> Self { ZNEW.fetch_add(1, Ordering::SeqCst); DropZst } }
+        impl Drop for DropZst { fn drop(&mut self) { ZDROP.fetch_add(1, Ordering::SeqCst); } }
+        let r = quiet_catch(AssertUnwindSafe(|| {
+            let mut t: ThinVec<DropZst, Reserved> = ThinVec::new(); for _ in 0..7 { t.push(DropZst::new()); }
+            { let mut d = t.drain(1..5); let _one = d.next(); let _two = d.next_back(); }      // two taken, two dropped by the iterator, tail kept
+            assert_eq!(t.len(), 3);
+            drop(t.drain(..2)); assert_eq!(t.len(), 1);
+            t.push(DropZst::new()); t.truncate(1); let _ = t.pop(); assert!(t.is_empty());
+            let mut iv: InlineVec<DropZst, 8> = InlineVec::new(); for _ in 0..8 { iv.push(DropZst::new()); }
+            { let mut d = iv.drain(2..7); let _ = d.next(); }
+            assert_eq!(iv.len(), 3);
+            drop(iv.drain(..)); assert!(iv.is_empty());
+            for _ in 0..4 { iv.push(DropZst::new()); }
+            let mut it = iv.into_iter(); let _ = it.next(); drop(it);
+        }));
+        sum.evaluations += 1;
+        let (n, d) = (ZNEW.load(Ordering::SeqCst), ZDROP.load(Ordering::SeqCst));
+        if r.is_err() || n != d { sum.violation(format!("{{\"what\":\"vec extra-types battery zero-sized elements with a destructor (drains dropped before being consumed)\",\"observed\":{},\"expected\":\"created == dropped\"}}", jstr(&format!("created {} dropped {} {:?}", n, d, r.err())))); }
+    }
     // droppable prefix: written once at construction, dropped once with the vector, never dropped uninitialised
     let before = alloc::snap().errors;
     { let mut v: ThinVec<u32, Pfx> = ThinVec::new(); for i in 0..100 { v.push(i); } assert_eq!(*v.prefix().0, 7); let w = v.split_off(50); assert_eq!(*w.prefix().0, 7); }
     sum.evaluations += 1;
     let (n, d) = (NEW.load(Ordering::SeqCst), DROPPED.load(Ordering::SeqCst));
     if n != d || alloc::snap().errors != before { sum.violation(format!("{{\"what\":\"vec ThinVec droppable prefix\",\"observed\":{},\"expected\":\"created == dropped, intact\"}}", jstr(&format!("created {} dropped {} allocator {}", n, d, alloc::error_detail())))); }
+}
+
+/// The less travelled parts of the vector API against Vec (content, order, panics), with reference-counted elements so that a
+/// lost or doubled drop shows as a wrong strong count (or as an allocator error): from_array, extend_from_array, const_append,
+/// Extend / FromIterator, Clone, Debug / Hash / comparison impls, IntoIter as an ExactSize + DoubleEnded iterator, the `Copy`
+/// twins, ThinVec try_drain / try_extend_from_within / append from an InlineVec / spare_capacity_mut.
+fn api_battery(sum: &mut Summary) {
+    use std::collections::hash_map::DefaultHasher;
+    use std::hash::{Hash, Hasher};
+    use std::rc::Rc;
+    breadcrumb("vec API battery (from_array / const_append / Extend / trait impls / Copy twins / try_ forms)");
+    let before = alloc::snap().errors;
+    let masters: Vec<Rc<u32>> = (0..16).map(Rc::new).collect();
+    let m = |i: usize| masters[i].clone();
+    let hh = |t: &dyn Fn(&mut DefaultHasher)| { let mut s = DefaultHasher::new(); t(&mut s); s.finish() };
+    let mut check = |name: &str, ok: bool, detail: String| { sum.evaluations += 1; if !ok { sum.violation(format!("{{\"what\":{},\"observed\":{},\"expected\":\"same as Vec\"}}", jstr(&format!("vec API battery: {}", name)), jstr(&detail))); } };
+    let r = quiet_catch(AssertUnwindSafe(|| {
+        let mut iv: InlineVec<Rc<u32>, 8> = InlineVec::from_array([m(0), m(1), m(2)]);
+        let mut v: Vec<Rc<u32>> = vec![m(0), m(1), m(2)];
+        check("from_array", iv.as_slice() == &v[..], format!("{:?}", iv.as_slice()));
+        iv.extend_from_array([m(3), m(4)]); v.extend([m(3), m(4)]);
+        check("extend_from_array", iv.as_slice() == &v[..], format!("{:?}", iv.as_slice()));
+        let over = quiet_catch(AssertUnwindSafe(|| { let mut c = iv.clone(); c.extend_from_array([m(5), m(6), m(7), m(8)]); }));
+        check("extend_from_array beyond the capacity panics", over.is_err(), "accepted 9 elements in 8 slots".into());
+        let mut small: InlineVec<Rc<u32>, 4> = InlineVec::from_array([m(5), m(6)]);
+        iv.const_append(&mut small); v.extend([m(5), m(6)]);
+        check("const_append", iv.as_slice() == &v[..] && small.is_empty(), format!("{:?} / other {:?}", iv.as_slice(), small.as_slice()));
+        let mut small: InlineVec<Rc<u32>, 4> = InlineVec::from_array([m(7), m(8)]);
+        let over = quiet_catch(AssertUnwindSafe(|| iv.const_append(&mut small)));
+        check("const_append beyond the capacity panics and moves nothing", over.is_err() && iv.as_slice() == &v[..] && small.len() == 2, format!("{:?} / other {:?}", iv.as_slice(), small.as_slice()));
+        drop(small);
+        check("Debug", format!("{:?}", iv) == format!("{:?}", v), format!("{:?}", iv));
+        check("Hash", hh(&|s| iv.hash(s)) == hh(&|s| v[..].hash(s)) || hh(&|s| iv.hash(s)) == hh(&|s| v.hash(s)), "hash differs from the slice's".into());
+        let c = iv.clone();
+        check("Clone", c.as_slice() == &v[..] && Rc::strong_count(&masters[0]) == 4, format!("{:?} strong={}", c.as_slice(), Rc::strong_count(&masters[0])));
+        check("PartialEq / Ord between vectors", c == iv && c.cmp(&iv) == std::cmp::Ordering::Equal && c.partial_cmp(&iv) == Some(std::cmp::Ordering::Equal), "a clone is not equal to its source".into());
+        let mut c2 = c.clone(); let _ = c2.pop();
+        check("Ord is the slice order", c2.cmp(&iv) == c2.as_slice().cmp(iv.as_slice()) && (c2 == iv) == (c2.as_slice() == iv.as_slice()), "differs".into());
+        drop(c2);
+        // IntoIter: exact size, both ends, early drop
+        let mut it = c.into_iter(); let mut ot = v.clone().into_iter();
+        let mut ok = it.len() == ot.len() && it.size_hint() == ot.size_hint();
+        ok &= it.next() == ot.next() && it.next_back() == ot.next_back() && it.len() == ot.len();
+        ok &= it.nth(1) == ot.nth(1) && it.len() == ot.len();
+        drop(it); drop(ot);
+        check("IntoIter (len, size_hint, next, next_back, nth, early drop)", ok, "differs from vec::IntoIter".into());
+        // Extend / FromIterator
+        let mut e: InlineVec<Rc<u32>, 8> = InlineVec::new(); e.extend(v.iter().take(3).cloned()); e.extend(std::iter::empty());
+        check("Extend", e.as_slice() == &v[..3], format!("{:?}", e.as_slice()));
+        let f: InlineVec<Rc<u32>, 8> = v.iter().cloned().collect();
+        check("FromIterator", f.as_slice() == &v[..], format!("{:?}", f.as_slice()));
+        let t: ThinVec<Rc<u32>, Reserved> = v.iter().cloned().collect();
+        check("ThinVec FromIterator", t.as_slice() == &v[..], format!("{:?}", t.as_slice()));
+        // ThinVec: append from an InlineVec, try_ forms, spare capacity
+        let mut t = t; let mut f = f;
+        t.append(&mut f); let mut v2 = v.clone(); v2.extend(v.iter().cloned());
+        check("ThinVec::append(&mut InlineVec)", t.as_slice() == &v2[..] && f.is_empty(), format!("{:?}", t.as_slice()));
+        check("spare_capacity_mut", { let (l, c) = (t.len(), t.capacity()); t.spare_capacity_mut().len() == c - l }, "length differs from capacity - len".into());
+        for (s, e2) in [(0usize, 2usize), (3, 3), (5, 4), (0, 99), (14, 14), (15, 15)] {
+            let mut tc: ThinVec<Rc<u32>, Reserved> = t.as_slice().iter().cloned().collect(); let mut vc = v2.clone();
+            let exp = quiet_catch(AssertUnwindSafe(|| vc.drain(s..e2).collect::<Vec<_>>())).ok();
+            let got = tc.try_drain(s..e2).ok().map(|d| d.collect::<Vec<_>>());
+            check(&format!("ThinVec::try_drain({}..{})", s, e2), got == exp && (exp.is_none() || tc.as_slice() == &vc[..]) && (exp.is_some() || tc.as_slice() == &v2[..]), format!("{:?} -> {:?}", got, tc.as_slice()));
+            let mut tc: ThinVec<Rc<u32>, Reserved> = t.as_slice().iter().cloned().collect(); let mut vc = v2.clone();
+            let exp = quiet_catch(AssertUnwindSafe(|| vc.extend_from_within(s..e2))).is_ok();
+            let got = tc.try_extend_from_within(s..e2).is_ok();
+            check(&format!("ThinVec::try_extend_from_within({}..{})", s, e2), got == exp && tc.as_slice() == &vc[..], format!("ok={} -> {:?}", got, tc.as_slice()));
+        }
+        drop(t); drop(f); drop(e); drop(iv); drop(v); drop(v2);
+        // the Copy twins
+        let data: Vec<u8> = (0..12).collect();
+        let mut ic: InlineVec<u8, 16> = InlineVec::from_slice_copy(&data[..5]); let mut vc: Vec<u8> = data[..5].to_vec();
+        ic.extend_from_slice_copy(&data[5..9]); vc.extend_from_slice(&data[5..9]);
+        check("from_slice_copy / extend_from_slice_copy", ic.as_slice() == &vc[..], format!("{:?}", ic.as_slice()));
+        let cp = ic.copy();
+        check("copy", cp.as_slice() == &vc[..] && cp.len() == ic.len(), format!("{:?}", cp.as_slice()));
+        ic.extend_from_within_copy(2..6); vc.extend_from_within(2..6);
+        check("extend_from_within_copy", ic.as_slice() == &vc[..], format!("{:?}", ic.as_slice()));
+        let over = quiet_catch(AssertUnwindSafe(|| { let mut c = ic.copy(); c.extend_from_slice_copy(&data[..8]); }));
+        check("extend_from_slice_copy beyond the capacity panics", over.is_err(), "accepted".into());
+        let over = quiet_catch(AssertUnwindSafe(|| { let _c: InlineVec<u8, 4> = InlineVec::from_slice_copy(&data[..5]); }));
+        check("from_slice_copy beyond the capacity panics", over.is_err(), "accepted".into());
+        let mut tc: ThinVec<u8, Reserved> = ThinVec::from_slice_copy(&data[..5]); let mut vv = data[..5].to_vec();
+        tc.extend_from_slice_copy(&data); vv.extend_from_slice(&data);
+        check("ThinVec from_slice_copy / extend_from_slice_copy", tc.as_slice() == &vv[..], format!("{:?}", tc.as_slice()));
+    }));
+    if let Err(msg) = r { check("no panic in the battery", false, msg); }
+    // capacity arithmetic panics exactly where Vec's does, for zero-sized and for sized elements
+    {
+        macro_rules! same_panic { ($name:expr, $hip:expr, $std:expr) => {{
+            let (a, b) = (quiet_catch(AssertUnwindSafe(|| { $hip; })).is_err(), quiet_catch(AssertUnwindSafe(|| { $std; })).is_err());
+            check(&format!("capacity arithmetic: {}", $name), a == b, format!("panics={} where Vec panics={}", a, b));
+        }}; }
+        same_panic!("ThinVec<()> len 1, reserve(usize::MAX)", { let mut t: ThinVec<(), Reserved> = ThinVec::new(); t.push(()); t.reserve(usize::MAX); }, { let mut v: Vec<()> = Vec::new(); v.push(()); v.reserve(usize::MAX); });
+        same_panic!("ThinVec<()> len 1, reserve_exact(usize::MAX)", { let mut t: ThinVec<(), Reserved> = ThinVec::new(); t.push(()); t.reserve_exact(usize::MAX); }, { let mut v: Vec<()> = Vec::new(); v.push(()); v.reserve_exact(usize::MAX); });
+        same_panic!("ThinVec<()> len 0, reserve(usize::MAX)", { let mut t: ThinVec<(), Reserved> = ThinVec::new(); t.reserve(usize::MAX); }, { let mut v: Vec<()> = Vec::new(); v.reserve(usize::MAX); });
+        same_panic!("ThinVec<u8> len 1, reserve(usize::MAX)", { let mut t: ThinVec<u8, Reserved> = ThinVec::new(); t.push(1); t.reserve(usize::MAX); }, { let mut v: Vec<u8> = Vec::new(); v.push(1); v.reserve(usize::MAX); });
+        same_panic!("ThinVec<u64> reserve(usize::MAX / 8 + 1)", { let mut t: ThinVec<u64, Reserved> = ThinVec::new(); t.reserve(usize::MAX / 8 + 1); }, { let mut v: Vec<u64> = Vec::new(); v.reserve(usize::MAX / 8 + 1); });
+        same_panic!("ThinVec<u8> with_capacity(isize::MAX as usize + 1)", { let _t: ThinVec<u8, Reserved> = ThinVec::with_capacity(isize::MAX as usize + 1); }, { let _v: Vec<u8> = Vec::with_capacity(isize::MAX as usize + 1); });
+    }
+    let bad: Vec<(usize, usize)> = masters.iter().enumerate().map(|(i, r)| (i, Rc::strong_count(r))).filter(|(_, c)| *c != 1).collect();
+    check("every element dropped exactly once (strong counts back to 1)", bad.is_empty(), format!("(element, strong count) = {:?}", bad));
+    check("clean allocator", alloc::snap().errors == before, alloc::error_detail());
 }
 
 pub fn run(out_dir: &Path, tier: &str, seed: u64, rest: &[String]) {
@@ -608,6 +735,7 @@ pub fn run(out_dir: &Path, tier: &str, seed: u64, rest: &[String]) {
         }
     }
     if focus == "life" { extra_types(&mut sum); }
+    if focus == "refine" { api_battery(&mut sum); }
     w.flush();
     sum.files = w.files.clone();
     sum.notes.push(format!("profile={} injected_runs={} allocator_errors={}", profile(), n_inj, alloc::error_detail()));
